@@ -20,6 +20,7 @@ def main():
     ap.add_argument("--warm", action="store_true")
     ap.add_argument("--repo", default=factsmod.REPO)
     ap.add_argument("--replay")
+    ap.add_argument("--gen-anchors", action="store_true", help="regenerate rules/anchors.json from the current (reviewed) tree")
     args = ap.parse_args()
     if args.replay:
         import json
@@ -33,6 +34,11 @@ def main():
     except factsmod.FactsError as e:
         print("ERROR: cannot extract facts: %s" % e, file=sys.stderr)
         return 2
+    if args.gen_anchors:
+        from iast import anchors
+
+        print("anchors: %d functions" % anchors.generate(facts))
+        return 0
     if args.warm:
         print("facts ready: %s (%s)" % (facts["_meta"]["path"], "fresh" if facts["_meta"]["fresh"] else "cached"))
         factsmod.prune_cache()
